@@ -501,6 +501,25 @@ def run(fx, rep):
     ag = [st for _, _, st in b.stmts() if st['k'] == 'Assign' and st['rv']['k'] == 'Aggregate' and (st['rv'].get('adt') or '').endswith('ast::Expr') and st['rv'].get('variant') == 'Ident']
     rep.check(len(ag) == 1 and terms(pv, ag[0]['rv']['ops'][0]) == ['arg2.id.text'], 'R8', 'visit_Ident/name-is-token-text', b.loc(), 'Ident(id.text)', 'identifier node is not built from the token text')
     rep.floor('R8', 13)
+    # ---------------- R9 built sub-expressions are opaque to the parser
+    rep.rule('R9', 'the hand-written parser never looks inside a sub-expression it has built (so it cannot regroup, fuse or unroll it); the two macro argument checks are the only exceptions')
+    ev = {v['name'] for v in fx.adt('cel_parser::ast::Expr')['variants']}
+    ALLOWED = {'cel_parser::macros::has_macro_expander': {'Select'}, 'cel_parser::macros::extract_ident': {'Ident'}}
+    nsc = 0
+    for pb in fx.bodies.values():
+        if pb.crate != 'cel_parser' or pb.is_derived() or pb.raw['kind'] == 'Promoted' or '/gen/' in pb.loc() or pb.loc().startswith('antlr/src/references.rs'):
+            continue
+        nsc += 1
+        txt = json.dumps(pb.raw['blocks'])
+        dc = set(re.findall(r'"k": "Downcast"[^{}]*"name": "(\w+)"', txt)) | set(re.findall(r'"name": "(\w+)"[^{}]*"k": "Downcast"', txt))
+        fn = re.sub(r'::\{closure#\d+\}', '', F.norm_path(pb.path))
+        bad = (dc & ev) - ALLOWED.get(fn, set())
+        for v in sorted(bad):
+            rep.violation('R9', 'inspects-built-expression/%s/%s' % (fn.split('::', 1)[-1], v), pb.loc(),
+                          '%s matches on Expr::%s of an expression that is already built: grouping written in the source (parentheses, receiver/argument boundaries) can be undone there' % (fn, v))
+        if fn in ALLOWED:
+            rep.ok('R9', 'argument-check/%s' % fn.rsplit('::', 1)[-1], pb.loc(), 'looks only at Expr::%s of its argument' % sorted(ALLOWED[fn]))
+    rep.check(nsc >= 60, 'R9', 'parser-functions-scanned', 'antlr/src', '%d hand-written parser functions scanned' % nsc, 'only %d functions scanned (anchor lost)' % nsc)
     rep.floor('R5', 30)
     # ---------------- R6
     from . import c10
